@@ -242,6 +242,45 @@ class Ctx:
         self.rep.count('result_producing_calls:' + key, n)
         return not bad
 
+    # ------------------------------------------------------------------ K16 state updates do not disappear
+    def write_sites_preserved(self, rule, key, crate, fields, what):
+        """For each listed state field (Adt.field) the number of places in the crate that update it (assignment, `+=`-style call
+        through `&mut`, call result stored into it; constructors and derives excluded) is at least the number frozen on the
+        reviewed tree (tables/write_sites.json).  A dropped update - `self.locked_funds -= x` rewritten as a mere test of
+        `locked_funds - x`, a forgotten `flags.set(..)` - lowers the count and is reported with the field; moving an update
+        between functions of the crate, or inlining a helper, does not.  Evaluated on the inlined views when it fails on the
+        source as written, so two identical updates merged into one new helper are still counted once per call site."""
+        now = {}
+        for fld in fields:
+            adt, _, f_ = fld.rpartition('.')
+            n = 0
+            for (g, bb, line, kind) in self.prog.field_writes(adt, f_):
+                if g.crate != crate or kind == 'construct' or NEUTRAL.search(g.id):
+                    continue
+                n += 1
+            now[fld] = n
+        if os.environ.get('BA_FREEZE_ENTRY_SETS') == '1':
+            FREEZE_WS.setdefault(crate, {}).update(now)
+        try:
+            frozen = json.load(open(os.path.join(os.path.dirname(ENTRY_TABLE), 'write_sites.json')))['crates'].get(crate, {})
+        except Exception:
+            frozen = None
+        if frozen is None:
+            self.rep.ob(rule, key, False, 'tables/write_sites.json missing (fail closed)')
+            return False
+        ok = True
+        for fld, n in sorted(now.items()):
+            want = frozen.get(fld)
+            if want is None:
+                self.rep.ob(rule, '%s:%s' % (key, fld), False, '%s: field %s has no frozen count (fail closed: regenerate tables/write_sites.json deliberately)' % (what, fld))
+                ok = False
+            else:
+                good = n >= want
+                ok = ok and good
+                self.rep.ob(rule, '%s:%s:%s' % (key, crate.replace('fil_actor_', ''), fld), good,
+                            '%s: %s is updated at %d place(s) in %s, the reviewed tree has %d%s' % (what, fld, n, crate, want, '' if good else ': an update of this field disappeared'))
+        return ok
+
     # ------------------------------------------------------------------ K15 tolerated failures
     def tolerated_failures(self, rule, key, crates, what):
         """The places where a failing call is *tolerated* - the caller can still return success after the callee returned Err: an
@@ -1048,6 +1087,7 @@ def _bool_result_blocks(h, value):
 
 
 FREEZE_TOL = {}
+FREEZE_WS = {}
 
 
 def _callee_key(c):
